@@ -23,6 +23,18 @@ use std::collections::{BTreeMap, BTreeSet};
 use std::fmt::Write as _;
 use std::path::{Path, PathBuf};
 
+/// `ok` or `err:<stage>:<diagnostics, sorted, joined by " | ">` of one call of `check_package` / `build_package`
+fn entry_outcome<T>(r: &Result<T, CompilationError>) -> String {
+    match r {
+        Ok(_) => "ok".to_string(),
+        Err(e) => {
+            let mut msgs: Vec<String> = e.diagnostics().iter().map(|d| d.message().to_string()).collect();
+            msgs.sort();
+            format!("err:{}:{}", util::stage_of(e), esc_line(&msgs.join(" | ")))
+        }
+    }
+}
+
 fn diag_class(e: &CompilationError) -> String {
     let msgs: Vec<String> = e.diagnostics().iter().map(|d| d.message().to_string()).collect();
     msgs.join(" | ")
@@ -586,6 +598,124 @@ pub fn early_diagnostic_projects() -> Vec<Project> {
     v
 }
 
+// ------------------------------------------------------------------------------------------------
+// diagnostics of the stage AFTER the typer
+//
+// Match compilation (`compile_match::compile_file`) is the last stage that can reject a source, and the only one that
+// `build_package` runs and `check_package` does not; the whole-program path runs it once over all packages with the
+// environment of the whole project, `build_package` per package with the exports of the direct dependencies.  Its
+// diagnostics are: a match on integer literals without a catch-all arm (any integer type, any nesting of the literal
+// inside constructor / tuple patterns, any expression position) and an inherent method used as a value instead of
+// being called.  The catalogue places every such source in the entry file, a sibling of it, a library file and a
+// sibling library file, and - where the form can mention a dependency - lets the matched value / the method come from
+// a package the user imports.  Nothing is expected except that both pipelines (and `check` up to the typer) agree.
+
+/// (name, items to add to the file, uses package `Dep`)
+const LATE_FORMS: &[(&str, &str, bool)] = &[
+    ("int32-match-no-wildcard", "fn late(n: int32) -> int32 {\n    match n {\n        0 => 1,\n        1 => 2,\n    }\n}\n", false),
+    ("int8-match-no-wildcard", "fn late(n: int8) -> int32 {\n    match n {\n        0i8 => 1,\n        1i8 => 2,\n    }\n}\n", false),
+    ("int16-match-no-wildcard", "fn late(n: int16) -> int32 {\n    match n {\n        0i16 => 1,\n    }\n}\n", false),
+    ("int64-match-no-wildcard", "fn late(n: int64) -> int32 {\n    match n {\n        0i64 => 1,\n        7i64 => 2,\n    }\n}\n", false),
+    ("uint8-match-no-wildcard", "fn late(n: uint8) -> int32 {\n    match n {\n        0u8 => 1,\n    }\n}\n", false),
+    ("uint16-match-no-wildcard", "fn late(n: uint16) -> int32 {\n    match n {\n        0u16 => 1,\n    }\n}\n", false),
+    ("uint32-match-no-wildcard", "fn late(n: uint32) -> int32 {\n    match n {\n        0u32 => 1,\n    }\n}\n", false),
+    ("uint64-match-no-wildcard", "fn late(n: uint64) -> int32 {\n    match n {\n        0u64 => 1,\n        1u64 => 2,\n    }\n}\n", false),
+    ("int-in-variant-payload", "enum LE {\n    A(int32),\n    B,\n}\n\nfn late(e: LE) -> int32 {\n    match e {\n        LE::A(0) => 1,\n        LE::B => 2,\n    }\n}\n", false),
+    ("int-in-tuple", "fn late(t: (int32, bool)) -> int32 {\n    match t {\n        (0, true) => 1,\n        (1, _) => 2,\n    }\n}\n", false),
+    ("int-in-struct-pattern", "struct LS {\n    a: int32,\n    b: bool,\n}\n\nfn late(s: LS) -> int32 {\n    match s {\n        LS { a: 0, b: _ } => 1,\n    }\n}\n", false),
+    ("int-match-in-closure", "fn late(n: int32) -> int32 {\n    let c = |k: int32| match k {\n        0 => 1,\n    };\n    c(n)\n}\n", false),
+    ("int-match-in-let-in-arm", "fn late(n: int32) -> int32 {\n    match n {\n        _ => {\n            let r = match n {\n                3 => 4,\n            };\n            r\n        },\n    }\n}\n", false),
+    ("int-match-in-generic-fn", "fn late[T](x: T, n: int32) -> int32 {\n    match n {\n        0 => 1,\n    }\n}\n", false),
+    ("int-match-in-impl-method", "struct LM {\n    v: int32,\n}\n\nimpl LM {\n    fn pick(self: LM) -> int32 {\n        match self.v {\n            0 => 1,\n        }\n    }\n}\n", false),
+    ("int-match-in-trait-impl", "trait LT {\n    fn pick(Self) -> int32;\n}\n\nimpl LT for int32 {\n    fn pick(self: int32) -> int32 {\n        match self {\n            0 => 1,\n        }\n    }\n}\n", false),
+    ("inherent-method-as-value", "struct LP {\n    x: int32,\n}\n\nimpl LP {\n    fn get(self: LP) -> int32 {\n        self.x\n    }\n}\n\nfn late(p: LP) -> int32 {\n    let g = LP::get;\n    g(p)\n}\n", false),
+    ("inherent-method-as-argument", "struct LP {\n    x: int32,\n}\n\nimpl LP {\n    fn get(self: LP) -> int32 {\n        self.x\n    }\n}\n\nfn ap(f: (LP) -> int32, p: LP) -> int32 {\n    f(p)\n}\n\nfn late(p: LP) -> int32 {\n    ap(LP::get, p)\n}\n", false),
+    ("generic-inherent-method-as-value", "struct LW[T] {\n    it: T,\n}\n\nimpl[T] LW[T] {\n    fn get(self: LW[T]) -> T {\n        self.it\n    }\n}\n\nfn late(w: LW[int32]) -> int32 {\n    let g = LW::get;\n    g(w)\n}\n", false),
+    // ---- the matched value / the method belongs to an imported package
+    ("dep-int-field-match", "fn late() -> int32 {\n    match Dep::mk().x {\n        1 => 1,\n    }\n}\n", true),
+    ("dep-int-result-match", "fn late() -> int32 {\n    match Dep::num() {\n        1 => 1,\n        2 => 2,\n    }\n}\n", true),
+    ("dep-variant-payload-match", "fn late(e: Dep::E) -> int32 {\n    match e {\n        Dep::E::A(0) => 1,\n        Dep::E::B => 2,\n    }\n}\n", true),
+    ("dep-struct-pattern-match", "fn late(p: Dep::P) -> int32 {\n    match p {\n        Dep::P { x: 0 } => 1,\n    }\n}\n", true),
+    ("dep-generic-payload-match", "fn late(o: Dep::Opt[int32]) -> int32 {\n    match o {\n        Dep::Opt::Some(0) => 1,\n        Dep::Opt::None => 2,\n    }\n}\n", true),
+    ("dep-inherent-method-as-value", "fn late() -> int32 {\n    let g = Dep::P::get;\n    g(Dep::mk())\n}\n", true),
+    // ---- controls: the same shapes with the catch-all / the call, accepted by every stage
+    ("control-int-match-with-wildcard", "fn late(n: int32) -> int32 {\n    match n {\n        0 => 1,\n        _ => 2,\n    }\n}\n", false),
+    ("control-inherent-method-called", "struct LP {\n    x: int32,\n}\n\nimpl LP {\n    fn get(self: LP) -> int32 {\n        self.x\n    }\n}\n\nfn late(p: LP) -> int32 {\n    LP::get(p)\n}\n", false),
+    ("control-dep-match-with-wildcard", "fn late(e: Dep::E) -> int32 {\n    match e {\n        Dep::E::A(0) => 1,\n        _ => 2,\n    }\n}\n", true),
+];
+
+const LATE_DEP: &str = "package Dep\n\nstruct P {\n    x: int32,\n}\n\nimpl P {\n    fn get(self: P) -> int32 {\n        self.x\n    }\n}\n\nenum E {\n    A(int32),\n    B,\n}\n\nenum Opt[T] {\n    Some(T),\n    None,\n}\n\nfn mk() -> P {\n    P { x: 1 }\n}\n\nfn num() -> int32 {\n    1\n}\n";
+
+pub fn late_diagnostic_projects() -> Vec<Project> {
+    let mut v = Vec::new();
+    for (name, text, uses_dep) in LATE_FORMS {
+        for place in ["entry", "main-sibling", "library", "library-sibling"] {
+            let imp = if *uses_dep { "import Dep\n" } else { "" };
+            let mut files: Vec<(String, String)> = Vec::new();
+            if *uses_dep {
+                files.push(("Dep/lib.gom".to_string(), LATE_DEP.to_string()));
+            }
+            let main_ok = "fn main() {\n    string_println(\"m\");\n}\n";
+            let main_lib = "package Main\nimport Lib\n\nfn main() {\n    string_println(int32_to_string(Lib::ok()));\n}\n";
+            match place {
+                "entry" => files.push(("main.gom".to_string(), format!("package Main\n{}\n{}\n{}", imp, text, main_ok))),
+                "main-sibling" => {
+                    files.push(("main.gom".to_string(), format!("package Main\n\n{}", main_ok)));
+                    files.push(("z.gom".to_string(), format!("package Main\n{}\n{}", imp, text)));
+                }
+                "library" => {
+                    files.push(("main.gom".to_string(), main_lib.to_string()));
+                    files.push(("Lib/lib.gom".to_string(), format!("package Lib\n{}\nfn ok() -> int32 {{\n    1\n}}\n\n{}", imp, text)));
+                }
+                _ => {
+                    files.push(("main.gom".to_string(), main_lib.to_string()));
+                    files.push(("Lib/a.gom".to_string(), "package Lib\n\nfn ok() -> int32 {\n    1\n}\n".to_string()));
+                    files.push(("Lib/b.gom".to_string(), format!("package Lib\n{}\n{}", imp, text)));
+                }
+            }
+            v.push(Project { id: format!("late-{}-{}", name, place), kind: "late-diagnostic", files, tags: vec![format!("late={}", name), format!("place={}", place)] });
+        }
+    }
+    v
+}
+
+// ------------------------------------------------------------------------------------------------
+// the entry point
+//
+// `link_cores` decides on its own whether the project has an entry point ("Main package missing main function"); the
+// whole-program path has no such test and leaves it to the back end, which renames `main` (and any `…::main`) to
+// `main0` and emits `func main() { main0() }`.  The catalogue varies where `main` is and what it looks like.
+
+/// (name, files)
+pub fn entry_point_projects() -> Vec<Project> {
+    let hello = "fn main() {\n    string_println(\"m\");\n}\n";
+    let helper = "fn helper() -> int32 {\n    1\n}\n";
+    let lib_ok = "package Lib\n\nfn ok() -> int32 {\n    1\n}\n";
+    let forms: Vec<(&str, Vec<(&str, String)>)> = vec![
+        ("control-main-in-entry-file", vec![("main.gom", format!("package Main\n\n{hello}"))]),
+        ("main-in-sibling-file", vec![("main.gom", format!("package Main\n\n{helper}")), ("z.gom", format!("package Main\n\n{hello}"))]),
+        ("no-main", vec![("main.gom", format!("package Main\n\n{helper}"))]),
+        ("no-main-no-items", vec![("main.gom", "package Main\n".to_string())]),
+        ("no-main-two-files", vec![("main.gom", format!("package Main\n\n{helper}")), ("z.gom", "package Main\n\nfn other() -> int32 {\n    helper()\n}\n".to_string())]),
+        ("no-main-with-library", vec![("main.gom", format!("package Main\nimport Lib\n\nfn helper() -> int32 {{\n    Lib::ok()\n}}\n")), ("Lib/lib.gom", lib_ok.to_string())]),
+        ("main-only-in-library", vec![("main.gom", format!("package Main\nimport Lib\n\nfn helper() -> int32 {{\n    Lib::ok()\n}}\n")), ("Lib/lib.gom", format!("{lib_ok}\n{hello}"))]),
+        ("main-only-as-method", vec![("main.gom", "package Main\n\nstruct App {\n    v: int32,\n}\n\nimpl App {\n    fn main(self: App) -> int32 {\n        self.v\n    }\n}\n".to_string())]),
+        ("main-only-as-extern", vec![("main.gom", "package Main\n\nextern \"go\" \"os\" \"Getpid\" main() -> int32\n".to_string())]),
+        ("main-with-parameter", vec![("main.gom", "package Main\n\nfn main(x: int32) {\n    string_println(int32_to_string(x));\n}\n".to_string())]),
+        ("main-with-result", vec![("main.gom", "package Main\n\nfn main() -> int32 {\n    1\n}\n".to_string())]),
+        ("main-generic", vec![("main.gom", "package Main\n\nfn main[T]() {\n    string_println(\"g\");\n}\n".to_string())]),
+    ];
+    forms
+        .into_iter()
+        .map(|(name, files)| Project {
+            id: format!("entry-{}", name),
+            kind: "entry-point",
+            files: files.into_iter().map(|(f, c)| (f.to_string(), c)).collect(),
+            tags: vec![format!("entry={}", name)],
+        })
+        .collect()
+}
+
 /// witness projects kept under corpus/C14/<name>/ (a directory per project)
 pub fn corpus_witnesses() -> Vec<Project> {
     let mut v = Vec::new();
@@ -729,7 +859,7 @@ struct SepResult {
     go: Option<crate::sexp::S>,
     core: Option<crate::sexp::S>,
     go_text: String,
-    iface: Vec<(String, &'static str)>,
+    iface: Vec<(String, &'static str, String, String)>,
 }
 
 fn separate_build(root: &Path, order: &[String], dirs: &BTreeMap<String, PathBuf>, reverse_link: bool) -> SepResult {
@@ -744,16 +874,19 @@ fn separate_build(root: &Path, order: &[String], dirs: &BTreeMap<String, PathBuf
         let opts = || PackageInputs { package: p.clone(), input_files: inputs.clone(), interface_paths: vec![art.clone()] };
         let checked = separate::check_package(opts());
         let built = separate::build_package(opts());
-        match (&checked, &built) {
+        let verdict = match (&checked, &built) {
             (Ok(ci), Ok(unit)) => {
                 let a = serde_json::to_string_pretty(ci).unwrap_or_default();
                 let b = serde_json::to_string_pretty(&unit.interface).unwrap_or_default();
-                iface.push((p.clone(), if a == b { "same" } else { "differ" }));
+                if a == b { "same" } else { "differ" }
             }
-            (Ok(_), Err(e)) => iface.push((p.clone(), if util::stage_of(e) == "compile" { "build-fails-in-compile" } else { "check-ok-build-err" })),
-            (Err(_), Ok(_)) => iface.push((p.clone(), "check-err-build-ok")),
-            (Err(a), Err(b)) => iface.push((p.clone(), if util::stage_of(a) == util::stage_of(b) { "both-err" } else { "both-err-different-stage" })),
-        }
+            (Ok(_), Err(e)) => if util::stage_of(e) == "compile" { "build-fails-in-compile" } else { "check-ok-build-err" },
+            (Err(_), Ok(_)) => "check-err-build-ok",
+            (Err(a), Err(b)) => if util::stage_of(a) == util::stage_of(b) { "both-err" } else { "both-err-different-stage" },
+        };
+        // what each of the two entry points answered, in full (stage and every diagnostic, sorted): the two run the
+        // same front end on the same files against the same interfaces, so whatever one reports the other must report
+        iface.push((p.clone(), verdict, entry_outcome(&checked), entry_outcome(&built)));
         match built {
             Ok(unit) => {
                 let ij = serde_json::to_string_pretty(&unit.interface).unwrap_or_default();
@@ -880,8 +1013,8 @@ fn run_project(p: &Project, root: &Path, cap: usize, rng: &mut Rng, out: &mut St
         let r = std::panic::catch_unwind(std::panic::AssertUnwindSafe(|| separate_build(&rootb, &ord, &dirsb, k % 2 == 1)));
         match r {
             Ok(res) => {
-                for (pkg, verdict) in &res.iface {
-                    writeln!(out, "{}\tIFACE\t{}\t{}\t{}", id, k, pkg, verdict).unwrap();
+                for (pkg, verdict, chk, bld) in &res.iface {
+                    writeln!(out, "{}\tIFACE\t{}\t{}\t{}\t{}\t{}", id, k, pkg, verdict, chk, bld).unwrap();
                 }
                 if k < 2 {
                     if let Some(le) = &res.linkenv {
@@ -927,6 +1060,8 @@ pub fn main(args: &util::Args) {
     projects.extend(corpus_witnesses());
     projects.extend(import_rule_projects());
     projects.extend(early_diagnostic_projects());
+    projects.extend(late_diagnostic_projects());
+    projects.extend(entry_point_projects());
     projects.extend(lookup_visibility_projects());
     // the package worlds of C16 whose directories are all in order (chains, diamonds, DAGs, impl triples): qualified
     // and type-directed references to own / imported / transitively reachable / unrelated packages, trait and inherent
